@@ -282,6 +282,21 @@ func (e *excuser) excuse(id string, trigger bool) bool {
 	return r
 }
 
+// witnessProblems counts witnesses whose fixed input could not be built from the corpus (a harness
+// problem: such a witness would silently disable its predicate).
+var witnessProblems int
+
+func noWitnessTree() (bool, string) {
+	witnessProblems++
+	return false, ""
+}
+
+func checkWitnesses(t *testing.T) {
+	if witnessProblems > 0 {
+		t.Errorf("HARNESS-BUG: %d finding witnesses could not build their fixed input from the corpus", witnessProblems)
+	}
+}
+
 func has(l []string, s string) bool {
 	for _, x := range l {
 		if x == s {
